@@ -256,7 +256,9 @@ func (cc *ClientConn) newStream(
 			Destination: cc.destAddress,
 		},
 	}
-	err = rw.Write(ctx, &rpc)
+	wctx, wcancel := cc.mp.WriteContext(ctx)
+	err = rw.Write(wctx, &rpc)
+	wcancel()
 	if err != nil {
 		log.Error().Err(err).Msg("NewStream: failed to open")
 		// No stream will exist to run the teardown later on.
